@@ -744,7 +744,7 @@ func runBatch(e *Env, ph *Phase, b batch, tag string) batch {
 	}
 	cmd.Env = append(os.Environ(), "GOMAXPROCS="+strconv.Itoa(gmp), "GOTRACEBACK=all")
 	if e.Spec.Race {
-		cmd.Env = append(cmd.Env, "GORACE=halt_on_error=0 log_path="+racePrefix)
+		cmd.Env = append(cmd.Env, "GORACE=halt_on_error=0 exitcode=0 log_path="+racePrefix)
 	}
 	cmd.Env = append(cmd.Env, ph.Env...)
 	cmd.SysProcAttr = &syscall.SysProcAttr{Setpgid: true}
